@@ -4,6 +4,7 @@ cross-check (symbolic execution on concrete inputs vs CPython on the real functi
 import ast
 import z3
 from .values import *   # noqa
+from .values import H2D
 from . import values as VV
 
 
@@ -21,6 +22,20 @@ RealArr = z3.ArraySort(z3.IntSort(), z3.RealSort())
 SUMR = z3.Function("SUMR", RealArr, z3.IntSort(), z3.RealSort())       # sum of the first n entries
 IntArr = z3.ArraySort(z3.IntSort(), z3.IntSort())
 SUMI = z3.Function("SUMI", IntArr, z3.IntSort(), z3.IntSort())
+
+
+def len_alias(eng, n):
+    """Lengths that are not plain constants get a constant alias (patterns must not contain `if`)."""
+    n = z3.simplify(n)
+    if z3.is_int_value(n) or (z3.is_const(n) and n.decl().kind() == z3.Z3_OP_UNINTERPRETED):
+        return n
+    hit = eng._len_alias.get(n.get_id())
+    if hit is not None:
+        return hit[0]
+    a = z3.Int(fresh_name("len"))
+    eng.axioms.append(a == n)
+    eng._len_alias[n.get_id()] = (a, n)
+    return a
 
 
 def filter_axioms(eng, mask_arr, n):
@@ -50,6 +65,11 @@ def filter_axioms(eng, mask_arr, n):
         z3.Implies(z3.And(n > 0, c == n), z3.ForAll([k], z3.Implies(z3.And(0 <= k, k < n), z3.Select(mask_arr, k)))),
         z3.Implies(c == 0, z3.ForAll([k], z3.Implies(z3.And(0 <= k, k < n), z3.Not(z3.Select(mask_arr, k))))),
     ]
+    ax.append(z3.ForAll([k], z3.Implies(z3.And(0 <= k, k < n, z3.Select(mask_arr, k)), c >= 1), patterns=[z3.Select(mask_arr, k)]))
+    first = IDX(mask_arr, n, z3.IntVal(0))
+    ax.append(z3.Implies(c >= 1, z3.And(0 <= first, first < n, z3.Select(mask_arr, first))))
+    ax.append(z3.Implies(z3.And(n >= 0, c == n), z3.ForAll([j], z3.Implies(z3.And(0 <= j, j < n), IDX(mask_arr, n, j) == j),
+                                                         patterns=[IDX(mask_arr, n, j)])))
     # (forall k in range: mask) => c == n, via a witness of a false entry
     w = z3.Int(fresh_name("w!cnt"))
     ax.append(z3.Implies(z3.And(n >= 0, c != n), z3.And(0 <= w, w < n, z3.Not(z3.Select(mask_arr, w)))))
@@ -67,9 +87,36 @@ def named_array(eng, lam, base="A"):
     A = z3.Const(fresh_name(base), lam.sort())
     k = z3.Int("k!na")
     body = z3.simplify(z3.Select(lam, k))
-    eng.axioms.append(z3.ForAll([k], z3.Select(A, k) == body, patterns=[z3.Select(A, k)]))
+    # triggers: A[k] itself, and every application f(k) of an uninterpreted function occurring in the body, so that the
+    # definition is also unfolded at indices that only occur under the functions the body talks about
+    pats = [z3.Select(A, k)]
+    seen = set()
+
+    def walk(t):
+        if t.get_id() in seen or len(pats) >= 4:
+            return
+        seen.add(t.get_id())
+        if z3.is_app(t):
+            if t.decl().kind() == z3.Z3_OP_UNINTERPRETED and t.num_args() == 1 and t.arg(0).eq(k):
+                pats.append(t)
+                return
+            for ch in t.children():
+                walk(ch)
+    walk(body)
+    eng.axioms.append(z3.ForAll([k], z3.Select(A, k) == body, patterns=pats))
     eng._named[key] = (A, lam)
     return A
+
+
+def complement_lemma(eng, A, B, n):
+    """Counting fact (lemma library, assumed): complementary masks split the n positions."""
+    key = ("compl", A.get_id(), B.get_id(), n.get_id())
+    if key in eng._axiom_keys:
+        return
+    eng._axiom_keys.add(key)
+    k = z3.Int(fresh_name("k!cpl"))
+    eng.axioms.append(z3.Implies(z3.ForAll([k], z3.Implies(z3.And(0 <= k, k < n), z3.Select(A, k) == z3.Not(z3.Select(B, k)))),
+                                 CNT(A, n) + CNT(B, n) == n))
 
 
 def mask_array(eng, st, maskfn):
@@ -80,7 +127,7 @@ def mask_array(eng, st, maskfn):
 def filtered(eng, st, n, maskfn, elemfn, numpy=False, etype=None):
     """The subsequence of elemfn(0..n-1) at the positions where maskfn holds."""
     ma = mask_array(eng, st, maskfn)
-    n = z3.simplify(n)
+    n = len_alias(eng, n)
     filter_axioms(eng, ma, n)
     c = CNT(ma, n)
     return st.alloc(HSeq(c, lambda j: elemfn(IDX(ma, n, j)), numpy=numpy, etype=etype, note=("filter", ma, n, HSeq(n, elemfn))))
@@ -141,7 +188,16 @@ def seq_of(eng, st, v, node=None):
         return HSeq(len(items), get if items else (lambda k: VInt(0)))
     if isinstance(v, VConc) and v.name == "range":
         lo, hi = v.obj
-        return HSeq(z3.If(hi > lo, hi - lo, 0), lambda k: VInt(lo + k), etype=T.int)
+        n = z3.simplify(hi - lo)
+        nn = z3.is_int_value(lo) and lo.as_long() >= 0
+
+        def el(k):
+            v = VInt(z3.simplify(lo + k))
+            v.nonneg = nn
+            return v
+        if not eng.feasible(st, hi < lo):
+            return HSeq(n, el, etype=T.int)      # hi >= lo on this path
+        return HSeq(z3.If(hi > lo, hi - lo, 0), el, etype=T.int)
     raise Unsupported("not a sequence: %r (line %s)" % (v, getattr(node, "lineno", "?")))
 
 
@@ -191,6 +247,17 @@ def m_int(eng, st, args, kwargs, node):
     if isinstance(v, VLabel):
         return VInt(eng.label_fn("int_of")(v.t))
     raise Unsupported("int(%r)" % (v,))
+
+
+def m_str(eng, st, args, kwargs, node):
+    v = args[0]
+    if isinstance(v, VInt):
+        if z3.is_int_value(v.t):
+            return VStr(str(v.t.as_long()))
+        return VLabel(eng.label_fn("str", z3.IntSort())(v.t))
+    if isinstance(v, (VStr, VLabel)):
+        return v
+    raise Unsupported("str(%r)" % (v,))
 
 
 def m_float(eng, st, args, kwargs, node):
@@ -455,7 +522,7 @@ def m_np_sum(eng, st, args, kwargs, node):
     if isinstance(e0, VBool):
         g = o.get
         ma = mask_array(eng, st, lambda k: g(k).t)
-        n = z3.simplify(o.len)
+        n = len_alias(eng, o.len)
         filter_axioms(eng, ma, n)
         return VInt(CNT(ma, n))
     if isinstance(e0, VInt):
@@ -767,9 +834,252 @@ def m_fancy_index(eng, st, base, idx, node):
     raise Unsupported("fancy index with %r" % (e0,))
 
 
+# ----- 2-D arrays ---------------------------------------------------------------------------------
+def is_full_slice(n):
+    return isinstance(n, ast.Slice) and n.lower is None and n.upper is None and n.step is None
+
+
+def m_subscript2d(eng, st, base, sl, node):
+    o = st.heap[base.addr]
+    if isinstance(o, HSeq):
+        raise Unsupported("2-D subscript of a 1-D sequence (line %d)" % node.lineno)
+    g = o.get
+    if not isinstance(sl, ast.Tuple):
+        # a[i] -> row ; a[mask] / a[idx] -> rows
+        sl = ast.Tuple(elts=[sl, ast.Slice(lower=None, upper=None, step=None)], ctx=ast.Load())
+    if len(sl.elts) != 2:
+        raise Unsupported("subscript with %d indices" % len(sl.elts))
+    a, b = sl.elts
+    if is_full_slice(a) and not isinstance(b, ast.Slice):
+        j = eng.as_int(eng.ev(b, st))
+        eng.oblige(st, "column index in range", z3.And(j >= -o.cols, j < o.cols), "safety", node)
+        jj = j if (z3.is_int_value(j) and j.as_long() >= 0) else z3.If(j < 0, j + o.cols, j)
+        return st.alloc(HSeq(o.rows, lambda r: g(r, jj), numpy=True, etype=o.etype))
+    if isinstance(a, ast.Slice):
+        raise Unsupported("row slice of a 2-D array (line %d)" % node.lineno)
+    ia = eng.ev(a, st)
+    if eng.is_seq(ia, st):
+        io = st.heap[ia.addr]
+        e0 = io.get(z3.Int("k!probe"))
+        if not is_full_slice(b):
+            raise Unsupported("a[rows, cols] with a row array and a column index")
+        if isinstance(e0, VBool):
+            eng.oblige(st, "row mask has one entry per row", io.len == o.rows, "safety", node)
+            ig = io.get
+            ma = mask_array(eng, st, lambda k: ig(k).t)
+            n = len_alias(eng, o.rows)
+            filter_axioms(eng, ma, n)
+            return st.alloc(H2D(CNT(ma, n), o.cols, lambda r, c: g(IDX(ma, n, r), c), etype=o.etype, note=("filter", ma, n)))
+        if isinstance(e0, VInt):
+            ig, m = io.get, io.len
+            k = z3.Int(fresh_name("k!fi2"))
+            s2 = st.fork()
+            s2.pc = list(st.pc) + [0 <= k, k < m]
+            eng.oblige(s2, "row index array entries in range", z3.And(ig(k).t >= 0, ig(k).t < o.rows), "safety", node)
+            return st.alloc(H2D(m, o.cols, lambda r, c: g(ig(r).t, c), etype=o.etype))
+        raise Unsupported("row selection with %r" % (e0,))
+    i = eng.as_int(ia)
+    eng.oblige(st, "row index in range", z3.And(i >= -o.rows, i < o.rows), "safety", node)
+    ii = i if (z3.is_int_value(i) and i.as_long() >= 0) else z3.If(i < 0, i + o.rows, i)
+    if is_full_slice(b):
+        return st.alloc(HSeq(o.cols, lambda c: g(ii, c), numpy=True, etype=o.etype))
+    if isinstance(b, ast.Slice):
+        lo, hi = eng.slice_bounds(o.cols, b, st)
+        return st.alloc(HSeq(z3.If(hi > lo, hi - lo, 0), lambda c: g(ii, c + lo), numpy=True, etype=o.etype))
+    j = eng.as_int(eng.ev(b, st))
+    eng.oblige(st, "column index in range", z3.And(j >= -o.cols, j < o.cols), "safety", node)
+    return g(ii, z3.If(j < 0, j + o.cols, j))
+
+
+def m_store2d(eng, st, base, sl, v, node):
+    o = st.heap[base.addr]
+    if isinstance(o, HSeq):
+        raise Unsupported("2-D store into a 1-D sequence (line %d)" % node.lineno)
+    if not (isinstance(sl, ast.Tuple) and len(sl.elts) == 2):
+        raise Unsupported("store a[i] = ... on a 2-D array")
+    a, b = sl.elts
+    g = o.get
+    if isinstance(a, ast.Slice):
+        raise Unsupported("store into a row slice")
+    i = eng.as_int(eng.ev(a, st))
+    eng.oblige(st, "row index in range (store)", z3.And(i >= 0, i < o.rows), "safety", node)
+    if is_full_slice(b):
+        if eng.is_seq(v, st):
+            vo = st.heap[v.addr]
+            eng.oblige(st, "assigned row has as many entries as the array has columns", vo.len == o.cols, "safety", node)
+            vg = vo.get
+            newget = lambda r, c: ite(r == i, as_float(vg(c)) if isinstance(g(r, c), VFloat) else vg(c), g(r, c))
+        else:
+            vv = as_float(v) if isinstance(g(z3.IntVal(0), z3.IntVal(0)), VFloat) else v
+            newget = lambda r, c: ite(r == i, vv, g(r, c))
+    elif isinstance(b, ast.Slice):
+        raise Unsupported("store into part of a row")
+    else:
+        j = eng.as_int(eng.ev(b, st))
+        eng.oblige(st, "column index in range (store)", z3.And(j >= 0, j < o.cols), "safety", node)
+        vv = as_float(v) if isinstance(g(z3.IntVal(0), z3.IntVal(0)), VFloat) else v
+        newget = lambda r, c: ite(z3.And(r == i, c == j), vv, g(r, c))
+    st.heap[base.addr] = H2D(o.rows, o.cols, newget, etype=o.etype)
+    return None
+
+
+def m_np_zeros2(eng, st, args, kwargs, node):
+    n = args[0]
+    if isinstance(n, (VTuple,)) or (isinstance(n, VRef) and eng.is_seq(n, st)):
+        items = n.items if isinstance(n, VTuple) else [st.heap[n.addr].get(z3.IntVal(0)), st.heap[n.addr].get(z3.IntVal(1))]
+        if len(items) == 2:
+            r, c = eng.as_int(items[0]), eng.as_int(items[1])
+            eng.oblige(st, "np.zeros shape is non-negative", z3.And(r >= 0, c >= 0), "safety", node)
+            return st.alloc(H2D(r, c, lambda i, j: VFloat(0), etype=T.float))
+    return m_np_zeros(eng, st, args, kwargs, node)
+
+
+def argmin_witness(eng, st, o):
+    """Index of the first minimum among the non-NaN entries (meaningful when one exists)."""
+    key = id(o)
+    hit = eng._argmin.get(key)
+    if hit is not None and hit[1] is o:
+        return hit[0]
+    j = z3.Int(fresh_name("argmin"))
+    g, n = o.get, o.len
+    k = z3.Int(fresh_name("k!am"))
+    some = any_of(eng, n, lambda q: z3.Not(as_float(g(q)).nan), "somenotnan")
+    gj = as_float(g(j))
+    eng.axioms.append(z3.Implies(some, z3.And(
+        0 <= j, j < n, z3.Not(gj.nan),
+        z3.ForAll([k], z3.Implies(z3.And(0 <= k, k < n, z3.Not(as_float(g(k)).nan)),
+                                  z3.And(fle(gj, as_float(g(k))), z3.Implies(k < j, flt(gj, as_float(g(k))))))))))
+    eng._argmin[key] = ((j, some), o)
+    return j, some
+
+
+def m_np_nanargmin(eng, st, args, kwargs, node):
+    o = seq_of(eng, st, args[0], node)
+    if isinstance(args[0], VRef):
+        o = st.heap[args[0].addr]
+    j, some = argmin_witness(eng, st, o)
+    eng.oblige(st, "nanargmin of a sequence with a non-NaN entry (else ValueError)", some, "safety", node)
+    st.assume(some)          # execution continues only if no ValueError was raised
+    r = VInt(j)
+    r.nonneg = True
+    return r
+
+
+def m_np_nanmin(eng, st, args, kwargs, node):
+    o = st.heap[args[0].addr] if isinstance(args[0], VRef) else seq_of(eng, st, args[0], node)
+    j, some = argmin_witness(eng, st, o)
+    eng.oblige(st, "nanmin of a non-empty sequence", o.len > 0, "safety", node)
+    return ite(some, as_float(o.get(j)), VFloat(0, nan=True))
+
+
+def m_np_vstack(eng, st, args, kwargs, node):
+    lst = args[0]
+    if isinstance(lst, VTuple):
+        rows = lst.items
+    elif eng.is_seq(lst, st):
+        lo = st.heap[lst.addr]
+        if not z3.is_int_value(z3.simplify(lo.len)):
+            raise Unsupported("np.vstack of a list of symbolic length (line %d)" % node.lineno)
+        rows = [lo.get(z3.IntVal(i)) for i in range(z3.simplify(lo.len).as_long())]
+    else:
+        raise Unsupported("np.vstack(%r)" % (lst,))
+    objs = [seq_of(eng, st, r, node) for r in rows]
+    for ob in objs[1:]:
+        eng.oblige(st, "np.vstack rows have equal length", ob.len == objs[0].len, "safety", node)
+    gets = [ob.get for ob in objs]
+
+    def get(r, c):
+        v = as_float(gets[-1](c))
+        for i in range(len(gets) - 2, -1, -1):
+            v = ite(r == i, as_float(gets[i](c)), v)
+        return v
+    return st.alloc(H2D(len(objs), objs[0].len, get, etype=T.float))
+
+
+def m_np_transpose(eng, st, args, kwargs, node):
+    v = args[0]
+    if isinstance(v, VRef) and isinstance(st.heap[v.addr], H2D):
+        o = st.heap[v.addr]
+        g = o.get
+        return st.alloc(H2D(o.cols, o.rows, lambda r, c: g(c, r), etype=o.etype, note=o.note))
+    if eng.is_seq(v, st):
+        return v
+    raise Unsupported("np.transpose(%r)" % (v,))
+
+
+def m_sorted(eng, st, args, kwargs, node):
+    """sorted(rows of a 2-D array, key=lambda x: ...) -> the rows permuted: PERM is a bijection of
+    [0,m), keys are non-decreasing along it, equal keys keep their order (stable)."""
+    v = args[0]
+    key = kwargs.get("key")
+    if not (isinstance(v, VRef) and isinstance(st.heap[v.addr], H2D) and isinstance(key, VConc) and key.name == "lambda"):
+        raise Unsupported("sorted() form (line %d)" % node.lineno)
+    o = st.heap[v.addr]
+    g, m, cols = o.get, o.rows, o.cols
+    lam, lenv = key.obj
+    if len(lam.args.args) != 1:
+        raise Unsupported("sort key arity")
+
+    def keyof(r):
+        s2 = st.fork()
+        s2.silent += 1
+        s2.env = dict(lenv)
+        s2.env[lam.args.args[0].arg] = s2.alloc(HSeq(cols, lambda c: g(r, c), numpy=True))
+        return as_float(eng.ev(lam.body, s2))
+    PERM = z3.Function(fresh_name("PERM"), z3.IntSort(), z3.IntSort())
+    PINV = z3.Function(fresh_name("PINV"), z3.IntSort(), z3.IntSort())
+    r, r2 = z3.Int("r!srt"), z3.Int("r2!srt")
+    k0 = z3.Int(fresh_name("k!srt"))
+    s3 = st.fork()
+    s3.pc = list(st.pc) + [0 <= k0, k0 < m]
+    eng.oblige(s3, "sort keys are not NaN", z3.Not(keyof(k0).nan), "safety", node)
+    eng.axioms.append(z3.ForAll([r], z3.Implies(z3.And(0 <= r, r < m), z3.And(0 <= PERM(r), PERM(r) < m, PINV(PERM(r)) == r)), patterns=[PERM(r)]))
+    eng.axioms.append(z3.ForAll([r], z3.Implies(z3.And(0 <= r, r < m), z3.And(0 <= PINV(r), PINV(r) < m, PERM(PINV(r)) == r)), patterns=[PINV(r)]))
+    eng.axioms.append(z3.ForAll([r, r2], z3.Implies(z3.And(0 <= r, r < r2, r2 < m),
+                                                    z3.And(fle(keyof(PERM(r)), keyof(PERM(r2))),
+                                                           z3.Implies(feq(keyof(PERM(r)), keyof(PERM(r2))), PERM(r) < PERM(r2)))),
+                                patterns=[z3.MultiPattern(PERM(r), PERM(r2))]))
+    res = H2D(m, cols, lambda i, c: g(PERM(i), c), etype=o.etype, note=("sorted", PERM, PINV, o))
+    return st.alloc(res)
+
+
+def m_np_linspace(eng, st, args, kwargs, node):
+    a, b, n = args[0], args[1], args[2]
+    nt = eng.as_int(n)
+    if isinstance(a, VInt) and z3.is_int_value(a.t) and a.t.as_long() == 0 and isinstance(b, VInt) and \
+            z3.is_true(z3.simplify(b.t == nt - 1)):
+        # 0, 1, ..., n-1 (exact in floating point: A-float)
+        return st.alloc(HSeq(z3.If(nt > 0, nt, 0), lambda k: VFloat(z3.ToReal(k)), numpy=True, etype=T.real))
+    raise Unsupported("np.linspace form (line %d)" % node.lineno)
+
+
+def m_store_slice(eng, st, base, sl, v, node):
+    """a[:] = seq  /  a[lo:hi] = seq or scalar (numpy, lengths must match)"""
+    o = st.heap[base.addr]
+    lo, hi = eng.slice_bounds(o.len, sl, st)
+    g = o.get
+    if eng.is_seq(v, st):
+        vo = st.heap[v.addr]
+        eng.oblige(st, "assigned slice has the length of its target", vo.len == z3.If(hi > lo, hi - lo, 0), "safety", node)
+        vg = vo.get
+        isf = isinstance(g(z3.Int("k!probe")), VFloat)
+        st.heap[base.addr] = HSeq(o.len, lambda k: ite(z3.And(k >= lo, k < hi), as_float(vg(k - lo)) if isf else vg(k - lo), g(k)),
+                                  numpy=o.numpy, etype=o.etype)
+    else:
+        vv = as_float(v) if isinstance(g(z3.Int("k!probe")), VFloat) else v
+        st.heap[base.addr] = HSeq(o.len, lambda k: ite(z3.And(k >= lo, k < hi), vv, g(k)), numpy=o.numpy, etype=o.etype)
+    return None
+
+
+def m_quit(eng, st, args, kwargs, node):
+    raise PyRaise("SystemExit")
+
+
 def install(eng):
     eng._axiom_keys = set()
     eng._named = {}
+    eng._len_alias = {}
+    eng._argmin = {}
     eng._label_fns = {}
 
     def label_fn(name, *dom):
@@ -784,9 +1094,9 @@ def install(eng):
     M = eng.models
     for nm, f in [("len", m_len), ("int", m_int), ("float", m_float), ("abs", m_abs), ("divmod", m_divmod),
                   ("range", m_range), ("enumerate", m_enumerate), ("list", m_list), ("isinstance", m_isinstance),
-                  ("min", m_min), ("max", m_max), ("set", m_set)]:
+                  ("min", m_min), ("max", m_max), ("set", m_set), ("str", m_str)]:
         M["builtin:" + nm] = f
-    for nm in ("dict", "bool", "str", "tuple", "reversed", "sorted"):
+    for nm in ("dict", "bool", "tuple", "reversed"):
         M.setdefault("builtin:" + nm, None)
     M["OrderedDict"] = m_ordereddict
     M["np.array"] = m_np_array
@@ -801,7 +1111,15 @@ def install(eng):
     M["np.any"] = m_np_any
     M["np.sum"] = m_np_sum
     M["np.mean"] = m_np_mean
-    M["np.zeros"] = m_np_zeros
+    M["np.zeros"] = m_np_zeros2
+    M["np.nanmin"] = m_np_nanmin
+    M["np.nanargmin"] = m_np_nanargmin
+    M["np.vstack"] = m_np_vstack
+    M["np.transpose"] = m_np_transpose
+    M["builtin:sorted"] = m_sorted
+    M["np.linspace"] = m_np_linspace
+    M["subscript2d"] = m_subscript2d
+    M["store2d"] = m_store2d
     M["np.ones"] = m_np_ones
     M["np.copy"] = m_np_copy
     M["np.pad"] = m_np_pad
@@ -811,6 +1129,8 @@ def install(eng):
     M["np.abs"] = unary_float(fabs)
     M["np.square"] = unary_float(fsquare)
     M["math.log"] = unary_float(flog)
+    M["store_slice"] = m_store_slice
+    M["builtin:quit"] = m_quit
     M["store_mask"] = m_store_mask
     M["fancy_index"] = m_fancy_index
     M["str%"] = m_str_mod
@@ -819,6 +1139,8 @@ def install(eng):
     M["dictcomp"] = m_dictcomp
     M["with"] = m_with
     M["os.path.isdir"] = effect("isdir")
+    M["os.path.exists"] = effect("isdir")
+    M["os.remove"] = effect("remove")
     M["os.mkdir"] = effect("mkdir")
     M["os.makedirs"] = effect("makedirs")
     M["os.system"] = effect("system")
